@@ -82,9 +82,10 @@ def run(prop, tier, seed, ctx):
         ctx.violation("C08|%s|session|corpus" % names.get(str(clause), "error"),
                       "corpus session on %s: event %d (%s) rejected (%s): %s %s" % (
                           t["file"], pos, evn.get("f"), names.get(str(clause), clause), json.dumps(evn)[:200], t.get("error") or ""), t)
-    mres2 = tlc.run("StaticSession", "MUT_StaticSession_visitor_reused.cfg", workers=2, timeout=300)
-    if "HistoryIndependent" not in mres2.violated:
-        raise MachineryError("mutant visitor_reused did not violate HistoryIndependent")
+    for mcfg in ("MUT_StaticSession_visitor_reused.cfg", "MUT_StaticSession_stale_failure.cfg"):
+        mres2 = tlc.run("StaticSession", mcfg, workers=2, timeout=300)
+        if "HistoryIndependent" not in mres2.violated:
+            raise MachineryError("mutant %s did not violate HistoryIndependent" % mcfg)
     ctx.notes.append("self-test: a visitor reused across queries violates HistoryIndependent")
     mres = tlc.run("MC_Static", "MUT_Static_bad_table_rows.cfg", workers=2, timeout=300)
     if "ThresholdLaw" not in mres.violated:
